@@ -1,1 +1,233 @@
-//! (to be filled in)
+//! E3 — explicit-state exploration of call histories on one live `Parser`.
+//!
+//! A state is the history that reaches it; it is rebuilt by replaying the history on a fresh
+//! parser (live parsers do not clone). The canonical key is (byte offset, remaining depth budget)
+//! read through the verif-hooks observation hook; without hooks the key degrades to the result
+//! history (over-fine: more states, same verdicts). In every state, for every operation, the
+//! central invariant is *suffix congruence*: the result of `op` equals the result of `op` on a
+//! fresh parser over `input[offset..]` (locations translated).
+
+use crate::model::pos::pos_of;
+use crate::outcome::{err_info, ErrInfo};
+use crate::rv::RV;
+use crate::util::guard;
+use lexpr::parse::{Options, Parser, Read};
+use std::collections::HashSet;
+
+#[derive(Clone, Copy, PartialEq, Eq, Hash, Debug)]
+pub enum Op {
+    NextValue,
+    NextDatum,
+    ExpectValue,
+    ExpectDatum,
+    ExpectEnd,
+    ValueIter,
+    DatumIter,
+    ParserIter,
+}
+
+pub const ALL_OPS: [Op; 8] = [Op::NextValue, Op::NextDatum, Op::ExpectValue, Op::ExpectDatum, Op::ExpectEnd, Op::ValueIter, Op::DatumIter, Op::ParserIter];
+
+type Pos2 = ((usize, usize), (usize, usize));
+
+#[derive(Clone, PartialEq, Eq, Hash, Debug)]
+pub enum OpResult {
+    Val(RV, Option<Pos2>),
+    End,
+    Unit,
+    Err(ErrInfo),
+    Panic(String),
+}
+
+impl OpResult {
+    pub fn short(&self) -> String {
+        match self {
+            OpResult::Val(v, sp) => format!("{}{}", crate::util::trunc(&v.to_string(), 80), sp.map(|s| format!(" @{}:{}-{}:{}", s.0 .0, s.0 .1, s.1 .0, s.1 .1)).unwrap_or_default()),
+            OpResult::End => "End".into(),
+            OpResult::Unit => "Ok(())".into(),
+            OpResult::Err(e) => format!("Err({:?}: {}{})", e.cat, e.msg, e.loc.map(|(l, c)| format!(" @{}:{}", l, c)).unwrap_or_default()),
+            OpResult::Panic(p) => format!("PANIC({})", crate::util::trunc(p, 100)),
+        }
+    }
+    pub fn is_err(&self) -> bool {
+        matches!(self, OpResult::Err(_) | OpResult::Panic(_))
+    }
+    /// value-level view: drops spans (for comparing value ops with datum ops)
+    pub fn value_view(&self) -> OpResult {
+        match self {
+            OpResult::Val(v, _) => OpResult::Val(v.clone(), None),
+            o => o.clone(),
+        }
+    }
+}
+
+fn span_of(d: &lexpr::datum::Datum) -> Pos2 {
+    let s = d.span();
+    ((s.start().line(), s.start().column()), (s.end().line(), s.end().column()))
+}
+
+pub fn apply<'de, R: Read<'de>>(p: &mut Parser<R>, op: Op, spans: bool) -> OpResult {
+    let r = guard(|| -> Result<OpResult, lexpr::parse::Error> {
+        let dat = |d: lexpr::datum::Datum| OpResult::Val(RV::from_value(d.value()), if spans { Some(span_of(&d)) } else { None });
+        Ok(match op {
+            Op::NextValue => match p.next_value()? {
+                Some(v) => OpResult::Val(RV::from_value(&v), None),
+                None => OpResult::End,
+            },
+            Op::NextDatum => match p.next_datum()? {
+                Some(d) => dat(d),
+                None => OpResult::End,
+            },
+            Op::ExpectValue => OpResult::Val(RV::from_value(&p.expect_value()?), None),
+            Op::ExpectDatum => dat(p.expect_datum()?),
+            Op::ExpectEnd => {
+                p.expect_end()?;
+                OpResult::Unit
+            }
+            Op::ValueIter => match p.value_iter().next() {
+                Some(r) => OpResult::Val(RV::from_value(&r?), None),
+                None => OpResult::End,
+            },
+            Op::DatumIter => match p.datum_iter().next() {
+                Some(r) => dat(r?),
+                None => OpResult::End,
+            },
+            Op::ParserIter => match Iterator::next(p) {
+                Some(r) => OpResult::Val(RV::from_value(&r?), None),
+                None => OpResult::End,
+            },
+        })
+    });
+    match r {
+        Ok(Ok(x)) => x,
+        Ok(Err(e)) => OpResult::Err(err_info(&e)),
+        Err(pn) => OpResult::Panic(pn),
+    }
+}
+
+/// Translate a location reported relative to `input[offset..]` into one relative to `input`.
+fn translate(input: &[u8], offset: usize, loc: (usize, usize)) -> (usize, usize) {
+    let (l0, c0) = pos_of(input, offset);
+    if loc.0 <= 1 {
+        (l0, c0 + loc.1)
+    } else {
+        (l0 + loc.0 - 1, loc.1)
+    }
+}
+
+pub fn translate_result(input: &[u8], offset: usize, r: &OpResult) -> OpResult {
+    match r {
+        OpResult::Err(e) => OpResult::Err(ErrInfo { loc: e.loc.map(|l| translate(input, offset, l)), ..e.clone() }),
+        OpResult::Val(v, Some((a, b))) => OpResult::Val(v.clone(), Some((translate(input, offset, *a), translate(input, offset, *b)))),
+        o => o.clone(),
+    }
+}
+
+#[derive(Clone, Copy, PartialEq, Eq, Debug)]
+pub enum Src {
+    Slice,
+    Str,
+    Reader,
+}
+
+#[derive(Clone, PartialEq, Eq, Hash, Debug)]
+pub enum Key {
+    Hooked(usize, u8),
+    Results(Vec<OpResult>),
+}
+
+/// Replay a history on a fresh parser; returns the results, the state key and the byte offset
+/// (None without hooks).
+pub fn replay(input: &[u8], o: Options, src: Src, hist: &[Op], spans: bool) -> (Vec<OpResult>, Key, Option<usize>) {
+    fn go<'de, R: Read<'de>>(mut p: Parser<R>, hist: &[Op], spans: bool) -> (Vec<OpResult>, Key, Option<usize>) {
+        let mut res = Vec::with_capacity(hist.len());
+        for &op in hist {
+            res.push(apply(&mut p, op, spans));
+        }
+        #[cfg(feature = "hooks")]
+        {
+            let (off, depth) = p.verif_state();
+            (res, Key::Hooked(off, depth), Some(off))
+        }
+        #[cfg(not(feature = "hooks"))]
+        {
+            let k = Key::Results(res.clone());
+            (res, k, None)
+        }
+    }
+    match src {
+        Src::Slice => go(Parser::from_slice_custom(input, o), hist, spans),
+        Src::Str => go(Parser::from_str_custom(std::str::from_utf8(input).expect("utf8 for Src::Str"), o), hist, spans),
+        Src::Reader => go(Parser::from_reader_custom(input, o), hist, spans),
+    }
+}
+
+#[derive(Default, Clone, Debug)]
+pub struct HistStats {
+    pub states: u64,
+    pub transitions: u64,
+    pub merged: u64,
+    pub max_depth: usize,
+    pub capped: bool,
+}
+
+/// One explored transition.
+pub struct Transition<'a> {
+    pub history: &'a [Op],
+    pub op: Op,
+    pub offset: Option<usize>,
+    pub actual: &'a OpResult,
+    /// result of `op` on a fresh parser over `input[offset..]`, locations translated (hooks only)
+    pub fresh: Option<OpResult>,
+    pub new_offset: Option<usize>,
+}
+
+/// BFS over histories. `visit` is called for every transition.
+pub fn explore(input: &[u8], o: Options, src: Src, ops: &[Op], max_depth: usize, max_states: usize, spans: bool, mut visit: impl FnMut(&Transition)) -> HistStats {
+    let mut stats = HistStats::default();
+    let mut seen: HashSet<Key> = HashSet::new();
+    let (_, k0, _) = replay(input, o, src, &[], spans);
+    seen.insert(k0);
+    stats.states = 1;
+    let mut frontier: Vec<Vec<Op>> = vec![vec![]];
+    let mut depth = 0;
+    while !frontier.is_empty() && depth < max_depth {
+        let mut next = Vec::new();
+        for hist in &frontier {
+            let (_, _, off) = replay(input, o, src, hist, spans);
+            for &op in ops {
+                let mut h2 = hist.clone();
+                h2.push(op);
+                let (res, key, off2) = replay(input, o, src, &h2, spans);
+                let actual = res.last().unwrap();
+                let fresh = off.map(|k| {
+                    let (r, _, _) = replay(&input[k..], o, src, &[op], spans);
+                    translate_result(input, k, &r[0])
+                });
+                stats.transitions += 1;
+                visit(&Transition { history: hist, op, offset: off, actual, fresh, new_offset: off2 });
+                if matches!(actual, OpResult::Panic(_)) {
+                    continue; // a panicked parser is not explored further
+                }
+                if seen.insert(key) {
+                    stats.states += 1;
+                    if seen.len() >= max_states {
+                        stats.capped = true;
+                        return stats;
+                    }
+                    next.push(h2);
+                } else {
+                    stats.merged += 1;
+                }
+            }
+        }
+        frontier = next;
+        depth += 1;
+        stats.max_depth = depth;
+    }
+    if !frontier.is_empty() {
+        // depth bound reached with unexplored states
+        stats.capped = true;
+    }
+    stats
+}
